@@ -84,6 +84,9 @@ type Node struct {
 	// layout requests honoured by the renderer
 	PadLines int // blank lines before a statement
 	PadCols  int // extra spaces before the node's first token
+	NL       int // line breaks before the node's first token (only legal inside brackets)
+	OpPad    int // extra spaces before the node's operator token (binary op, '(', '[', '.')
+	OpNL     int // line breaks before the operator token (only legal inside brackets)
 
 	// set by the renderer
 	Start Pos // first token of the node
@@ -442,6 +445,9 @@ func quote(s string) string {
 // are added when e binds less tightly.  The positions recorded for a
 // parenthesised node are those of the node itself, not of the parenthesis.
 func (r *renderer) expr(e *Node, min int) {
+	if e.NL > 0 {
+		r.w(strings.Repeat("\n", e.NL))
+	}
 	if e.PadCols > 0 {
 		r.w(strings.Repeat(" ", e.PadCols))
 	}
@@ -453,6 +459,16 @@ func (r *renderer) expr(e *Node, min int) {
 		return
 	}
 	r.expr1(e)
+}
+
+// oppad emits the requested layout before a node's operator token.
+func (r *renderer) oppad(e *Node) {
+	if e.OpNL > 0 {
+		r.w(strings.Repeat("\n", e.OpNL))
+	}
+	if e.OpPad > 0 {
+		r.w(strings.Repeat(" ", e.OpPad))
+	}
 }
 
 func (r *renderer) expr1(e *Node) {
@@ -493,6 +509,7 @@ func (r *renderer) expr1(e *Node) {
 		}
 		r.expr(e.Kids[0], lp)
 		r.w(" ")
+		r.oppad(e)
 		e.OpPos = r.pos()
 		if e.Op == "not in" {
 			// the two-word operator is reported at its second word
@@ -550,12 +567,14 @@ func (r *renderer) expr1(e *Node) {
 		r.w("}")
 	case EIndex:
 		r.expr(e.Kids[0], precPrimary)
+		r.oppad(e)
 		e.OpPos = r.pos()
 		r.w("[")
 		r.expr(e.Kids[1], precLowest)
 		r.w("]")
 	case ESlice:
 		r.expr(e.Kids[0], precPrimary)
+		r.oppad(e)
 		e.OpPos = r.pos()
 		r.w("[")
 		if e.Kids[1] != nil {
@@ -572,11 +591,13 @@ func (r *renderer) expr1(e *Node) {
 		r.w("]")
 	case EAttr:
 		r.expr(e.Kids[0], precPrimary)
+		r.oppad(e)
 		e.OpPos = r.pos()
 		r.w(".")
 		r.w(e.Name)
 	case ECall:
 		r.expr(e.Kids[0], precPrimary)
+		r.oppad(e)
 		e.OpPos = r.pos()
 		r.w("(")
 		first := true
